@@ -197,13 +197,15 @@ def parse_json(text, tables):
 
 def parse_junit(text, tables):
     facts = []
-    info = {"wellformed": True, "testcases": 0, "status_mismatch": 0, "totals_mismatch": 0}
+    info = {"wellformed": True, "testcases": 0, "status_mismatch": 0, "totals_mismatch": 0,
+            "message_mismatch": 0}
     if not text.strip():
         return facts, info
     try:
         root = ET.fromstring(text)
     except Exception:
-        return facts, {"wellformed": False, "testcases": 0, "status_mismatch": 0, "totals_mismatch": 0}
+        return facts, {"wellformed": False, "testcases": 0, "status_mismatch": 0, "totals_mismatch": 0,
+                       "message_mismatch": 0}
     for suite in root.iter("testsuite"):
         # the suite's own totals must agree with its entries
         cases = list(suite.iter("testcase"))
@@ -233,6 +235,12 @@ def parse_junit(text, tables):
                     body += ch.text or ""
             f, _ = parse_terminal(body, tables)
             facts.extend(f)
+            # the `message` of a <failure> states why one of the failed entries of its body failed
+            for ch in case:
+                if ch.tag in ("failure", "error"):
+                    whys = {x[4] for x in f if x[3] == "failed" and x[4]}
+                    if whys and _msg(ch.get("message", "")) not in whys:
+                        info["message_mismatch"] += 1
             # the testcase status must agree with its own lines
             has_fail = any(x[3] == "failed" for x in f)
             has_skip = any(x[3] == "skipped" for x in f)
